@@ -51,13 +51,13 @@ Definition probe_real : list (list N * str) :=
    ([5;0], nl " Status desc"); ([5;0;2;0], nl " Initial"); ([5;0;2;2], nl " not active");
    ([4;1], nl " choice desc"); ([4;1;2;0], nl " opt a"); ([4;1;3;0], []); ([4;1;3;0;2;0], []); ([4;1;2;1], [])].
 
-Theorem probe_locations : locs_eqb (main_locs to_camel probe_table probe_file) probe_real = true.
+Theorem probe_locations : locs_eqb (main_locs to_camel to_screaming_snake probe_table probe_file) probe_real = true.
 Proof. vm_compute. reflexivity. Qed.
 
 (* every location the model writes carries the declared name path it belongs to; for the
    probe: the path of each one and the name it stands for *)
 Theorem probe_location_names :
-  map (fun x => (lc_path x, lc_name x)) (main_locs to_camel probe_table probe_file) =
+  map (fun x => (lc_path x, lc_name x)) (main_locs to_camel to_screaming_snake probe_table probe_file) =
   [([4;0], [b "Foo"]); ([4;0;2;0], [b "Foo"; b "fooId"]); ([4;0;2;1], [b "Foo"; b "name"]); ([4;0;2;2], [b "Foo"; b "plain"]);
    ([4;0;3;0], [b "Foo"; b "Inner"]); ([4;0;3;0;2;0], [b "Foo"; b "Inner"; b "x"]);
    ([4;0;3;0;4;0;2;1], [b "Foo"; b "Inner"; b "Kind"; b "A"]); ([4;0;3;0;2;1], [b "Foo"; b "Inner"; b "kind"]);
